@@ -425,6 +425,39 @@ def _tail_assign(stmts: list[ast.stmt], ret: str, budget: list[int]) -> list[ast
     return [s] + _tail_assign(rest, ret, budget)
 
 
+def _split_tuple_result(stmts: list[ast.stmt], ret: str, n: int) -> bool:
+    """Rewrite every `ret = (e0, .., en-1)` inside `stmts` into `ret_0 = e0; ..`; False (nothing changed)
+    unless every assignment of `ret` is such a tuple."""
+    sites: list[tuple[list[ast.stmt], int]] = []
+
+    def scan(suite: list[ast.stmt]) -> bool:
+        for i, st in enumerate(suite):
+            if isinstance(st, ast.Assign) and len(st.targets) == 1 and isinstance(st.targets[0], ast.Name) \
+                    and st.targets[0].id == ret:
+                if not (isinstance(st.value, ast.Tuple) and len(st.value.elts) == n
+                        and not any(isinstance(e, ast.Starred) for e in st.value.elts)):
+                    return False
+                sites.append((suite, i))
+            for field in ("body", "orelse", "finalbody"):
+                sub = getattr(st, field, None)
+                if isinstance(sub, list) and sub and isinstance(sub[0], ast.stmt) and not scan(sub):
+                    return False
+            if isinstance(st, ast.Try):
+                for hd in st.handlers:
+                    if not scan(hd.body):
+                        return False
+        return True
+
+    if not scan(stmts) or not sites:
+        return False
+    for suite, i in sorted(sites, key=lambda x: -x[1]):
+        st = suite[i]
+        suite[i:i + 1] = [ast.copy_location(ast.Assign(
+            targets=[ast.Name(id=f"{ret}_{k}", ctx=ast.Store())], value=e), st)
+            for k, e in enumerate(st.value.elts)]  # type: ignore[attr-defined]
+    return True
+
+
 def splice_tail_helpers(prog: Program, fn: FuncInfo, rounds: int = 2) -> tuple[FuncInfo, set[str]]:
     """Analysis view of `fn` in which calls `x = [await] self._helper(...)` / `return self._helper(...)`
     / `self._helper(...)` of private same-class statement helpers (also those that return from several
@@ -453,10 +486,12 @@ def splice_tail_helpers(prog: Program, fn: FuncInfo, rounds: int = 2) -> tuple[F
                     continue
                 h = nz._helper_target(prog, fn, call, {})
                 if h is None or h is fn.node or h.name in nz.ANCHOR_NAMES or nz._simple_helper(h) == "expr" \
-                        or h.decorator_list or isinstance(h, ast.AsyncFunctionDef) != awaited:
+                        or isinstance(h, ast.AsyncFunctionDef) != awaited or not all(
+                            isinstance(d, ast.Name) and d.id in ("staticmethod", "override") for d in h.decorator_list):
                     continue
                 binds = nz._bind(h, call)
-                if binds is None or any(isinstance(x, (ast.Yield, ast.YieldFrom)) for x in ast.walk(h)):
+                if binds is None or any(isinstance(x, (ast.Yield, ast.YieldFrom)) for x in ast.walk(h)) \
+                        or any(nz._has_await(v) for v in binds.values()):
                     continue
                 body = copy.deepcopy(nz._strip_doc(h.body))
                 ret = f"ret__{h.name.strip('_')}"
@@ -468,6 +503,11 @@ def splice_tail_helpers(prog: Program, fn: FuncInfo, rounds: int = 2) -> tuple[F
                 for st in body:
                     stored |= nz._names_stored(st)
                     stored |= {x.name for x in ast.walk(st) if isinstance(x, ast.ExceptHandler) and x.name}
+                # arguments that are not plain reads (calls, fresh containers) are evaluated once, into a
+                # renamed local, instead of being substituted at every use of the parameter
+                held = {k for k, v in binds.items() if k not in stored and not (
+                    nz._is_pure(v) and not any(isinstance(x, ast.Call) for x in ast.walk(v)))}
+                stored |= held
                 ren = {n: f"{n}__{h.name.strip('_')}" for n in stored if n != ret}
                 for st in body:
                     for x in ast.walk(st):
@@ -482,7 +522,13 @@ def splice_tail_helpers(prog: Program, fn: FuncInfo, rounds: int = 2) -> tuple[F
                 sub = nz._Subst({k: v for k, v in binds.items() if k not in stored})
                 body = [sub.visit(st) for st in body]
                 new: list[ast.stmt] = [ast.copy_location(x, s) for x in pre] + body
-                if not isinstance(s, ast.Expr):
+                tgt = s.targets[0] if isinstance(s, ast.Assign) and len(s.targets) == 1 else None
+                if isinstance(tgt, (ast.Tuple, ast.List)) and _split_tuple_result(new, ret, len(tgt.elts)):
+                    # `a, b = helper(...)` with tuple returns: element-wise, so that roles stay visible
+                    for k, e in enumerate(tgt.elts):
+                        new.append(ast.copy_location(ast.Assign(
+                            targets=[e], value=ast.Name(id=f"{ret}_{k}", ctx=ast.Load())), s))
+                elif not isinstance(s, ast.Expr):
                     s2 = copy.copy(s)
                     s2.value = ast.Name(id=ret, ctx=ast.Load())  # type: ignore[attr-defined]
                     new.append(s2)
